@@ -23,7 +23,6 @@ import numpy as np
 
 from vmon import groups as G
 from vmon import jw
-from vmon.harness import CaseSkip
 
 PROP = "C07"
 RULE = ("case = (kind in {mpo, latex, m1, m2, mn, rdm, sample, algebra}) x (operator family = predefined class x symmetry "
@@ -39,8 +38,7 @@ ASSUMPTIONS = ["vmon/jw.py (strings diag((-1)^{t.n}) over fermionic components o
                "to_numpy of rank-2 on-site operators and to_tensor().to_numpy(legs=ops.space()) of an MPS/MPO are faithful "
                "observation functions (cross-validated by C01/C06)",
                "NumPy dense linear algebra on dimension <= 4096 is the truth",
-               "rdm(psi, *sites): leg pairs and fermionic order follow the order of the `sites` arguments (tests/mps/test_measurement.py::test_rdm); "
-               "states with factor != 1 are not used for rdm (normalisation convention undocumented)",
+               "rdm(psi, *sites): leg pairs and fermionic order follow the order of the `sites` arguments (tests/mps/test_measurement.py::test_rdm)",
                "sample: only complete orthonormal local bases are used, so the normalised conditional probabilities are Born probabilities"]
 
 FAMS = (
@@ -95,7 +93,10 @@ def floors(tier):
             "fermionic_cases": 200 * k, "bosonic_cases": 200 * k, "mpo_fmap_cases": 40 * k,
             "string_sensitive": 150 * k, "mpo_string_sensitive": 40 * k, "mpo_fmap_sensitive": 10 * k,
             "mixed_charge_rejected": 3 * k, "bra_ne_ket_cases": 50 * k, "nonzero_references": 1500 * k,
-            "mn_repeated_sites": 20 * k, "m2_dict_cases": 10 * k, "rdm_unordered_sites": 5 * k}
+            "mn_repeated_sites": 20 * k, "m2_dict_cases": 10 * k, "rdm_unordered_sites": 5 * k,
+            "m1_dict_cases": 40 * k, "m1_dict_unsorted": 20 * k, "m1_dict_descending_adjacent": 15 * k,
+            "m1_dict_extra_keys": 5 * k, "m2_dict_unsorted": 10 * k, "m2_pairs_lists_unsorted": 15 * k,
+            "m2_pairs_lists_with_repeats": 5 * k, "rdm_factor_cases": 20 * k}
 
 
 # ------------------------------------------------------------------ operator families
@@ -675,9 +676,19 @@ def same_charge_pool(F, name):
 
 
 def make_opdict(F, rng, N, base, sites=None):
-    """{site: operator} of equal charge but different matrices; returns (yastn dict, {site: (mat, n, norm)})."""
+    """{site: operator} of equal charge but different matrices, keys inserted in a user-like order (increasing, reversed
+    or shuffled -- a dict is an ordered container, the result must not depend on that order).
+    Returns (yastn dict, {site: (mat, n, norm, name)}, order kind)."""
     pool = same_charge_pool(F, base)
-    sites = sorted(rng.sample(range(N), rng.randint(1, N))) if sites is None else sites
+    if sites is None:
+        k = rng.choice((1, 2, 2, 3, N, N, max(1, N - 1), rng.randint(1, N)))
+        sites = rng.sample(range(N), min(k, N))
+    order = rng.choice(("increasing", "reversed", "shuffled", "shuffled"))
+    sites = sorted(sites)
+    if order == "reversed":
+        sites.reverse()
+    elif order == "shuffled":
+        rng.shuffle(sites)
     yd, loc = {}, {}
     for s in sites:
         nm = rng.choice(pool)
@@ -685,7 +696,13 @@ def make_opdict(F, rng, N, base, sites=None):
         op = F.named[nm] if c == 1.0 else c * F.named[nm]
         mat, n = jw.local(op, F.space)
         yd[s], loc[s] = op, (mat, n, max(1.0, float(np.linalg.norm(mat, 2))), nm)
-    return yd, loc
+    return yd, loc, order
+
+
+def descending_adjacent(keys, measured):
+    """Does the insertion order `keys` visit some measured site s+1 before the measured site s?"""
+    pos = {k: i for i, k in enumerate(keys) if k in measured}
+    return any(s + 1 in pos and pos[s + 1] < pos[s] for s in pos)
 
 
 def case_m1(ctx, F, rng, nprng):
@@ -694,8 +711,8 @@ def case_m1(ctx, F, rng, nprng):
     N = draw_N(rng, F.d, 4096 if ctx.tier == "thorough" else 1024, 7 if ctx.tier == "thorough" else 6)
     base = rng.choice(F.weighted)
     ntot = F.loc[base][1]
-    form = rng.choice(("tensor",) * 4 + ("dict",) * 3 + ("dict-mixed" if F.charged else "dict",))
-    smode = rng.choice(("none", "none", "int", "list"))
+    form = rng.choice(("tensor",) * 3 + ("dict",) * 4 + ("dict-mixed" if F.charged else "dict",))
+    smode = rng.choice(("none", "none", "int", "list") if form == "tensor" else ("none", "none", "none", "list", "list", "int"))
     count_flavour(ctx, F)
     bra, bv, ket, kv, scale, wst = bra_ket(ctx, F, N, ntot, rng)
     wit = {"family": F.tag, "N": N, "op": base, "form": form, "sites": smode, **wst}
@@ -711,8 +728,9 @@ def case_m1(ctx, F, rng, nprng):
         ctx.violation("missing-reject:measure_1site:mixed-charge-dict", "operators of different charge accepted", wit)
         ctx.case(("m1", F.tag, N, "dict-mixed", base, other), True, wit)
         return
+    order = None
     if form == "dict":
-        O, loc = make_opdict(F, rng, N, base)
+        O, loc, order = make_opdict(F, rng, N, base)
     else:
         O, loc = F.named[base], {s: (*F.loc[base], F.opnorm[base], base) for s in range(N)}
     if smode == "none":
@@ -720,12 +738,35 @@ def case_m1(ctx, F, rng, nprng):
     elif smode == "int":
         s = rng.choice(sorted(loc))
         sites, want = s, [s]
+    elif form == "dict" and rng.random() < 0.7:
+        # an unsorted list (repeats allowed) overlapping the dict: the dict holds extra keys and the list extra sites
+        sites = rng.sample(sorted(loc), rng.randint(1, len(loc))) + [rng.randrange(N + 2) for _ in range(rng.randint(0, 2))]
+        rng.shuffle(sites)
+        if rng.random() < 0.3:
+            sites = tuple(sites)
+        want = sorted(set(sites) & set(range(N)) & set(loc))
     else:
         sites = [rng.randrange(N + 2) for _ in range(rng.randint(1, N + 1))]      # repeated / out-of-range entries are dropped
         want = sorted(set(sites) & set(range(N)) & set(loc))
     wit["sites_arg"] = sites
+    vkey = "value:measure_1site"
+    if form == "dict":
+        wit["dict_insertion_order"] = list(O)
+        wit["dict_operators"] = {k: loc[k][3] for k in O}
+        ctx.count("m1_dict_cases")
+        ctx.count("m1_dict_order:" + order)
+        if list(O) != sorted(O):
+            vkey = "value:measure_1site:dict-unsorted-keys"
+            ctx.count("m1_dict_unsorted")
+        else:
+            vkey = "value:measure_1site:dict"
+        if descending_adjacent(list(O), set(want)):
+            ctx.count("m1_dict_descending_adjacent")
+        if set(O) - set(want):
+            ctx.count("m1_dict_extra_keys")
     res = mps.measure_1site(bra, O, ket, sites=sites)
-    sig = ("m1", F.tag, N, base, form, smode, repr(sites), wst["bra"] == "same")
+    sig = ("m1", F.tag, N, base, form, smode, repr(sites), wst["bra"] == "same",
+           None if form != "dict" else tuple((k, loc[k][3]) for k in O))
     M, Mb = F.model(N), F.model(N, bosonic=True) if F.fermionic else None
     if smode == "int":
         if isinstance(res, dict):
@@ -745,7 +786,7 @@ def case_m1(ctx, F, rng, nprng):
             continue
         mat, n, nrm, _ = loc[s]
         exp = M.expect(bv, [(mat, n, s)], kv)
-        cmp_value(ctx, "value:measure_1site", "measure_1site", res[s], exp, TOL_VAL * scale * nrm, {**wit, "site": s})
+        cmp_value(ctx, vkey, "measure_1site", res[s], exp, TOL_VAL * scale * nrm, {**wit, "site": s})
         ctx.count("m1_values")
         note_ref(ctx, exp, Mb.expect(bv, [(mat, n, s)], kv) if Mb else None, scale)
         nz = nz or abs(exp) > 1e-9 * scale
@@ -787,15 +828,17 @@ def case_m2(ctx, F, rng, nprng):
     bra, bv, ket, kv, scale, wst = bra_ket(ctx, F, N, ntot, rng)
     fa, fb = rng.choice(("tensor", "tensor", "tensor", "dict")), rng.choice(("tensor", "tensor", "tensor", "dict"))
     if fa == "dict":
-        O, locO = make_opdict(F, rng, N, a)
+        O, locO, _ = make_opdict(F, rng, N, a)
     else:
         O, locO = F.named[a], {s: (*F.loc[a], F.opnorm[a], a) for s in range(N)}
     if fb == "dict":
-        P, locP = make_opdict(F, rng, N, b)
+        P, locP, _ = make_opdict(F, rng, N, b)
     else:
         P, locP = F.named[b], {s: (*F.loc[b], F.opnorm[b], b) for s in range(N)}
     if "dict" in (fa, fb):
         ctx.count("m2_dict_cases")
+        if any(isinstance(x, dict) and list(x) != sorted(x) for x in (O, P)):
+            ctx.count("m2_dict_unsorted")
     bk = rng.choice(("pattern", "pattern", "pairs", "pairs", "single", "default"))
     single = False
     if bk == "pattern":
@@ -813,7 +856,13 @@ def case_m2(ctx, F, rng, nprng):
             elif (rel == ">") != (i > j):
                 i, j = j, i
             want.append((i, j))
-        bonds = list(want)
+        bonds = list(want)                      # user-ordered container: arbitrary order, repeated pairs
+        if rng.random() < 0.25:
+            bonds = tuple(bonds)
+        if len(bonds) != len(set(bonds)):
+            ctx.count("m2_pairs_lists_with_repeats")
+        if list(bonds) != sorted(bonds):
+            ctx.count("m2_pairs_lists_unsorted")
         want = sorted(set(want))
     elif bk == "single":
         i, j = rng.randrange(N), rng.randrange(N)
@@ -911,11 +960,17 @@ def case_rdm(ctx, F, rng, nprng):
     sites = rng.sample(range(N), k)
     count_flavour(ctx, F)
     reach = sorted(reachable(F, N))
-    psi, vec, how = make_state(ctx, F, N, rng.choice(reach), rng, allow_scale=False)
-    wit = {"family": F.tag, "N": N, "sites": sites, "state": how}
-    if abs(psi.factor - 1) > 1e-12:         # normalisation convention of rdm w.r.t. psi.factor is undocumented: not judged
-        ctx.count("rdm_skipped_factor")
-        raise CaseSkip
+    psi, vec, how = make_state(ctx, F, N, rng.choice(reach), rng)
+    if rng.random() < 0.5:       # rdm is the reduced density matrix of the state to_tensor() shows, |factor|^2 included
+        c = rng.choice((-1.0, 0.5, -2.5, 0.6 + 0.8j, 1.3j, 1e-3, -1e-3, 1e3))
+        psi = c * psi
+        vec = jw.mps_vector(psi, [F.space] * N)
+        how += f":x{c}"
+    with_factor = abs(psi.factor - 1) > 1e-12
+    if with_factor:
+        ctx.count("rdm_factor_cases")
+    vkey = "value:rdm:factor" if with_factor else "value:rdm"
+    wit = {"family": F.tag, "N": N, "sites": sites, "state": how, "factor": psi.factor}
     rho = mps.rdm(psi, *sites)
     if rho.ndim != 2 * k:
         ctx.violation("shape:rdm", f"rdm over {k} sites has {rho.ndim} legs", wit)
@@ -944,14 +999,14 @@ def case_rdm(ctx, F, rng, nprng):
             fsk.append((E, n, i))
         exp = MN.expect(vec, fsN, vec)
         got = np.trace(R @ Mk.product(fsk))
-        cmp_value(ctx, "value:rdm", "rdm", got, exp, TOL_VAL * nrm2 * 10, {**wit, "matrix_units": ab})
+        cmp_value(ctx, vkey, "rdm", got, exp, TOL_VAL * nrm2 * 10, {**wit, "matrix_units": ab})
         ctx.count("rdm_elements")
         note_ref(ctx, exp, MNb.expect(vec, fsN, vec) if MNb else None, nrm2)
         nz = nz or abs(exp) > 1e-9 * nrm2
     if any(x > y for x, y in zip(sites, sites[1:])):
         ctx.count("rdm_unordered_sites")
     ctx.count("rdm_cases")
-    ctx.case(("rdm", F.tag, N, tuple(sites), how), nz, wit)
+    ctx.case(("rdm", F.tag, N, tuple(sites), how, with_factor), nz, wit)
 
 
 def case_sample(ctx, F, rng, nprng):
